@@ -46,6 +46,9 @@ type threadState struct {
 	stack   []frame
 	tid     uint64
 	events  int
+	// directly started thread: the id the provider handed out for it
+	direct    bool
+	directTid uint64
 }
 
 type probeState struct {
@@ -217,6 +220,14 @@ func registerProbes() {
 	reg("start", locked(func(st *probeState, tid uint64, args []interface{}) {
 		if t := st.thread(argInt(args, 0)); t != nil {
 			t.started, t.tid = true, tid
+			// a directly started thread owns the id the provider gave it for as long as its goroutine runs: nothing
+			// else may run under that id meanwhile (two threads with one id are one re-entrant owner of every mutex)
+			for j := range st.thr {
+				o := st.thr[j]
+				if o != t && o.direct && !o.goDone && o.directTid == tid {
+					st.violation("thread-id-shared", "thread %d runs under interpreter thread id %d, the id the provider handed to the directly started thread %d which is still running; state: %s", argInt(args, 0), tid, j, st.describe())
+				}
+			}
 		}
 	}))
 
